@@ -308,14 +308,14 @@ func batchMain(c *Check, tier string) int {
 		if reported[pv.clause] {
 			continue
 		}
-		if perClause[pv.clause] >= 3 {
+		if perClause[pv.clause] >= 2 {
 			a.consequences[pv.clause]++
 			continue
 		}
 		perClause[pv.clause]++
 		pred := cleanPred(c.ID, pv.clause, kf)
 		base := Request{Prop: c.ID, Tier: tier, Seed: pv.o.Seed}
-		tape, out, _ := Minimize(pool, base, pv.o.Tape, pred, 12*time.Second)
+		tape, out, _ := Minimize(pool, base, pv.o.Tape, pred, 6*time.Second)
 		if out != nil && pred(out) {
 			reported[pv.clause] = true
 			out.Tape = tape
